@@ -38,7 +38,6 @@ RULE = (
 ASSUMPTIONS = [
     "distribution clauses are decided at level 1e-9/tests per run (chi-square, cells with expectation < 5 pooled)",
     "MCMC variants: total variation < 0.06 between the empirical law of a 2e5-step run on <= 6 states and the model law",
-    "slate models are given pref_intervals_by_bloc with the bloc's own slate listed first (as in the documentation)",
 ]
 
 TV_BOUND = 0.06
@@ -486,11 +485,15 @@ def gen_law_specs(seed, tier):
             else:
                 o = blocs[1 - j]
                 coh[b] = {b: C.enc(cohesions[j]), o: C.enc(1 - cohesions[j])}
-        iv = {b: {b: skew(slates[b]), **{o: skew(slates[o]) for o in blocs if o != b}} for b in blocs}
-        if nb == 2 and name_model and rnd.random() < 0.7:
-            # same parameter set, inner dictionaries written in another key order
+        # inner dictionaries in the blocs' order for every bloc (as the repository's own tests write
+        # them), or own slate first
+        own_first = rnd.random() < 0.3
+        iv = {b: {o: skew(slates[o]) for o in ([b] + [x for x in blocs if x != b] if own_first else blocs)} for b in blocs}
+        if nb == 2 and name_model:
+            # same parameter set, inner dictionaries written in different key orders: for one bloc the
+            # cohesion dictionary always lists the slates in the opposite order to its intervals
             b = rnd.choice(blocs)
-            coh[b] = {k: coh[b][k] for k in reversed(list(coh[b]))}
+            coh[b] = {k: coh[b][k] for k in reversed(list(iv[b]))}
         return {"slates": slates, "prop": props, "cohesion": coh, "intervals": iv}
 
     def three_bloc_params(rnd_):
@@ -514,7 +517,7 @@ def gen_law_specs(seed, tier):
                 continue
             cohs = [rnd.choice(coh_choices), rnd.choice(coh_choices)]
             if model in ("name_PlackettLuce", "name_BradleyTerry", "name_Cumulative", "short_name_PlackettLuce"):
-                nb = rnd.choice([1, 2])
+                nb = 2 if k % 2 == 0 else 1
                 sizes = [2, 2] if nb == 2 else [rnd.choice([3, 4])]
                 if model.startswith("name_BradleyTerry_MCMC"):
                     sizes = [3]
